@@ -43,6 +43,14 @@ impl TopicStorage for FileTopicStorage {
         topic.compression_algorithm = state.compression_algorithm;
         topic.replication_factor = state.replication_factor.unwrap_or(1);
 
+        if topic.config.recovery.recreate_missing_state
+            && !Path::new(&topic.partitions_path).exists()
+        {
+            // The server died while deleting the topic: the partitions are recreated below as missing ones.
+            warn!("Partitions directory: {} for topic with ID: {} for stream with ID: {} was not found and will be recreated.", topic.partitions_path, topic.topic_id, topic.stream_id);
+            let _ = create_dir_all(&topic.partitions_path).await;
+        }
+
         let mut dir_entries = fs::read_dir(&topic.partitions_path).await
             .with_context(|| format!("Failed to read partition with ID: {} for stream with ID: {} for topic with ID: {} and path: {}",
                                      topic.topic_id, topic.stream_id, topic.topic_id, &topic.partitions_path))
